@@ -167,6 +167,9 @@ def program(r, nfunc=3, size=18, cpp=False):
     out.append("void vfun(void) { g0++; return; }")
     out.append("void vearly(void)\n{\n  if (g0) {\n    g1++;\n    return;\n  }\n  g2++;\n  if (g1)\n    return;\n  g0--;\n}")
     out.append("#define SPIN(c) while (1) { if (c) break; }")
+    # an 'else' behind nested brace-less statements whose innermost body is a braced if without else
+    out.append("int vnest(int a) { int r = 0; int i; if (a) for (i = 0; i < 2; i++) while (r < 3) { if (i) r++; else r += 2; } else r = 7;\n"
+               "  if (a > 1) for (i = 0; i < 2; i++) while (r < 9) { if (i) r += 3; } else r = 5; return r; }")
     out.append("#define FOREVER for (;;)")
     # statements as macro bodies, without their semicolon and with trailing comments: the mod_ options work inside directives too
     out.append("#define RET_A return a // result\n#define RET_SUM return a + \\\n  g0 /* sum */\n#define BUMP if (g1) g2++ // bump")
